@@ -225,6 +225,9 @@ def _run(tape, clock):
             st[3] = mutable_outcome(tape, run)
     spec.user_metadata = {'tags': ['a', {'b': [1]}], 'n': 1}
     spec.op.extractor = 'ok'
+    for o_ in spec.outputs:
+        if tape.draw(3) == 2:
+            o_.fail_on_missing, o_.default_result = False, ('default', o_.alias)     # an output whose result is optional in replay
     if copy_on:
         spec.op.params = {'copy_data_on_intercepion': True}
         run.probe('copy_on_interception')
